@@ -29,6 +29,7 @@ RULE += (' Also: reflexive keys with one-sided equality (WideKey / NarrowKey) an
 RULE += (' Also: items that are None (grouped by equality or an is-None key).')
 RULE += (' Also: the key failing once with AttributeError / LookupError / RuntimeError.')
 RULE += (' Also: lenient keys equal to any foreign object.')
+RULE += (' Also: key comparisons that fail once; keys not equal to themselves (one shared NaN object / a fresh NaN per call).')
 ASSUMPTIONS = ["itertools.groupby of the running interpreter is the reference", "keys with reflexive equality only"]
 EXHAUSTIVE_SUBSPACES = "all operation sequences starting with 'adv' of length <= 5 (thorough: 6) over {adv, g-1, g-2, g0} on 12 fixed inputs"
 EXHAUSTIVE = {"quick": False, "thorough": False}
@@ -48,7 +49,7 @@ def cases(tier, seed, shard, nshards):
                     continue  # no group exists yet: same as shorter sequences
                 idx += 1
                 if idx % nshards == shard:
-                    yield {"keys": keys, "key": None if idx % 3 else "noneodd", "ops": list(ops), "flav": "list", "susp": 0}
+                    yield {"keys": keys, "key": [None, "noneodd", None, "samenan", None, "freshnan"][idx % 6], "ops": list(ops), "flav": "list", "susp": 0}
     rng = random.Random(f"C16-{seed}-{shard}")
     for _ in range(N_RANDOM[tier] // nshards):
         alpha = rng.choice([2, 3, 4])
@@ -58,13 +59,16 @@ def cases(tier, seed, shard, nshards):
             r = rng.random()
             ops.append("adv" if r < 0.35 else "g-1" if r < 0.72 else rng.choice(["g-2", "g0", "g-3"]) if r < 0.9
                        else rng.choice(["c-1", "c-1", "c-2", "c0"]))
-        case = {"keys": keys, "key": rng.choice([None, "half", "ahalf", "aident", "noneodd", "anoneodd", "tuple", "onesided", "aonesided", "lenient", "alenient"]), "ops": ops,
+        case = {"keys": keys, "key": rng.choice([None, "half", "ahalf", "aident", "noneodd", "anoneodd", "tuple", "onesided", "aonesided", "lenient", "alenient", "samenan", "asamenan", "freshnan", "afreshnan"]), "ops": ops,
                 "flav": rng.choice(["list", "async_gen", "async_class", "sync_iter"]), "susp": rng.choice([0, 0, 1])}
         if rng.random() < 0.06:
             # some items ARE None; grouped by equality (no key) or by a key that can take them
             case["keys"] = [k if rng.random() < 0.55 else -1 for k in keys]
             case["key"] = rng.choice([None, None, "isnone", "aisnone"])
-        if case["key"] is not None and keys and rng.random() < 0.2:
+        if case["key"] in ("half", "ahalf") and keys and rng.random() < 0.3:
+            # the COMPARISON of two keys fails once (the first one involving the key of one particular item)
+            case["eqfault"] = rng.randrange(len(keys))
+        elif case["key"] is not None and keys and rng.random() < 0.2:
             # the key function fails ONCE, for its k-th item, and the consumer carries on with the same operations:
             # itertools.groupby drops the item whose key it could not compute; it must not turn up in any group
             case["keyfault"] = [rng.randint(1, len(keys)), rng.choice(["ValueError", "KeyError", "TypeError", "Injected", "InjectedBase",
@@ -101,6 +105,31 @@ class NarrowKey:
         return "NarrowKey"
 
 
+class EqFaultKey:
+    """A key whose comparison FAILS once: the first ``==`` that involves the key of one particular item raises (a
+    comparison consulting something that is briefly unavailable).  itertools.groupby keeps the item it was judging
+    buffered across the failure; the consumer carries on."""
+    __hash__ = None
+
+    def __init__(self, v, idx, bad, armed):
+        self.v, self.idx, self.bad, self.armed = v, idx, bad, armed
+
+    def __eq__(self, other):
+        if self.armed["on"] and self.bad in (self.idx, getattr(other, "idx", None)):
+            self.armed["on"] = False
+            raise ValueError("the key comparison failed")
+        return isinstance(other, EqFaultKey) and self.v == other.v
+
+    def __ne__(self, other):
+        return not self == other
+
+    def __repr__(self):
+        return f"EqFaultKey({self.v})"
+
+
+_NAN = float("nan")
+
+
 class LenientKey:
     """A duck-typed key: equal to whatever carries the same tag - and to anything that carries NO tag at all (like
     ``unittest.mock.ANY`` it answers True to foreign objects, placeholders of a library included).  Reflexive and
@@ -125,6 +154,12 @@ def _key_impl(kname):
         return None
     if kname.endswith("lenient"):
         return lambda x: LenientKey(x.key // 2)
+    if kname.endswith("samenan"):
+        # keys that are NOT EQUAL TO THEMSELVES (float NaN): itertools compares with "identical implies equal" - the
+        # very same NaN object is one key (one group), distinct NaN objects are distinct keys (a group each)
+        return lambda x: _NAN if x.key % 2 else x.key
+    if kname.endswith("freshnan"):
+        return lambda x: float("nan") if x.key % 2 else x.key
     if kname.endswith("isnone"):
         return lambda x: x is None
     if kname.endswith("onesided"):
@@ -155,6 +190,9 @@ def gb_side(case, sync, fault=None, fnfl=None, cont=False):
     st = SrcState(0, [Item(k, (0, i)) if k != -1 else None for i, k in enumerate(keys)], plan, log=True)
     fs = None
     impl = _key_impl(kname)
+    if case.get("eqfault") is not None:
+        armed = {"on": True}
+        impl = lambda x: EqFaultKey(x.key // 2, x.uid[1], case["eqfault"], armed)  # noqa: E731
     if impl is not None:
         fs = FnState("key", impl, 0 if sync else case.get("susp", 0))
         if fault is not None and fault.kind == "fn":
@@ -252,6 +290,10 @@ def run_case(case, stats: Counter, compare_log=True):
         ref_side = gb_side(case, True, fault=Fault("fn", 0, use, FAULT_TYPES[exc]("key failed"), "call"), cont=True)
         got_side = gb_side(case, False, fault=Fault("fn", 0, use, FAULT_TYPES[exc]("key failed"), "call"), cont=True)
         stats["histories_with_a_key_failing_once"] += 1
+    elif case.get("eqfault") is not None:
+        ref_side = gb_side(case, True, cont=True)
+        got_side = gb_side(case, False, cont=True)
+        stats["histories_with_a_key_comparison_failing_once"] += 1
     else:
         ref_side = gb_side(case, True)
         got_side = gb_side(case, False)
